@@ -16,11 +16,11 @@ for d in sorted(glob.glob(os.path.join(HERE, "seeded", "*"))):
     cell = lambda s: str(s).replace("|", "/").replace("\n", " ")
     rows.append(f"| {name} | {m['property']} | {cell(m['summary'])[:400]} | {cell(m['needs_to_manifest'])[:300]} | {'yes' if r[0]['caught'] else 'NO'} ({r[0]['tier']}) | {', '.join(mech[:3])}{' …' if len(mech) > 3 else ''} | {note} |")
 out = ("# Seeded property-breaking changes\n\nWritten by independent sub-agents that were given only the property text and a scratch worktree of /repo "
-       "(never anything from /verif). Round 1 (`*-seedNN`): one change per property; round 2 (`*-r2seedNN`): two further changes per property with "
+       "(never anything from /verif). Round 1 (`*-seedNN`): one change per property; rounds 2 and 3 (`*-r2seedNN`, `*-r3seedNN`): two further changes per property each, with "
        "different triggers. Each directory `seeded/<name>/` holds `patch.diff`, `demo.py`, `meta.json` (with the lead's confirmation record from "
        "`tools/verify_seed.sh`: applies at /repo HEAD, the FULL repository suite passes with it, the demo fails with it and passes without) and "
        "`result.json` (last `tools/seeded.sh` run = `./check <property>` against a scratch copy with the patch applied).\n\n"
-       f"Totals: {n} changes, {c} caught by the quick tier of the property's check; the remaining one is assessed as outside the stated property (see its note).\n\n"
+       f"Totals: {n} changes, {c} caught by the quick tier of the property's check; the remaining ones are assessed as outside the stated property (see their notes).\n\n"
        "| name | property | change | needs to manifest | caught by ./check (tier) | mechanisms (first 3) | note |\n|---|---|---|---|---|---|---|\n" + "\n".join(rows) + "\n")
 open(os.path.join(HERE, "SEEDED.md"), "w").write(out)
 print(n, c)
